@@ -1468,6 +1468,9 @@ class Operation(_IRNode):
         """
         if context is None:
             context = {}
+            return self.is_structurally_equivalent(
+                other, context
+            ) and _is_one_to_one_on_outside_uses(self, context)
         if not isinstance(other, Operation):
             return False
         if self.name != other.name:
@@ -2089,6 +2092,9 @@ class Block(_IRNode, IRWithUses, IRWithName):
         """
         if context is None:
             context = {}
+            return self.is_structurally_equivalent(
+                other, context
+            ) and _is_one_to_one_on_outside_uses(self, context)
         if not isinstance(other, Block):
             return False
         if len(self.args) != len(other.args) or len(self.ops) != len(other.ops):
@@ -2735,6 +2741,9 @@ class Region(_IRNode):
         """
         if context is None:
             context = {}
+            return self.is_structurally_equivalent(
+                other, context
+            ) and _is_one_to_one_on_outside_uses(self, context)
         if not isinstance(other, Region):
             return False
         if len(self.blocks) != len(other.blocks):
@@ -2755,6 +2764,25 @@ class Region(_IRNode):
 
 
 IRNode: TypeAlias = Operation | Region | Block
+
+
+def _is_one_to_one_on_outside_uses(
+    node: IRNode, context: dict[IRNode | SSAValue, IRNode | SSAValue]
+) -> bool:
+    """
+    Last step of the structural equivalence check of `node` with another IR node,
+    where `context` maps the values and blocks defined in `node` to the ones defined
+    at the same place in the other node.
+    A value or block that `node` uses but does not define corresponds to itself, so
+    the correspondence is one-to-one only if it is not defined in the other node,
+    where it would also be the counterpart of a definition of `node`.
+    """
+    other_definitions = set(context.values())
+    return not any(
+        use not in context and use in other_definitions
+        for op in node.walk()
+        for use in (*op.operands, *op.successors)
+    )
 
 
 def _short_repr(value: object) -> str:
